@@ -216,7 +216,10 @@ func c04PacketBytes(kind string, comp bool) []byte {
 		proto.ServerCodeEndOfStream.Encode(&b)
 	case "exc":
 		proto.ServerCodeException.Encode(&b)
-		(&proto.Exception{Code: proto.ErrUnknownTable, Name: "DB::Exception", Message: "DB::Exception: scripted", Stack: "s"}).EncodeAware(&b, c04Rev)
+		// a chain of two: a short first element and a longer nested cause, so that a cut "inside the packet"
+		// (after its first half) falls inside the nested element, after one complete exception was decoded
+		(&proto.Exception{Code: proto.ErrUnknownTable, Name: "DB::Exception", Message: "DB::Exception: scripted", Stack: "s", Nested: true}).EncodeAware(&b, c04Rev)
+		(&proto.Exception{Code: proto.ErrBadArguments, Name: "DB::Exception", Message: "DB::Exception: the nested cause of the scripted exception, long enough to hold the middle of the packet", Stack: "s2"}).EncodeAware(&b, c04Rev)
 	case "unk":
 		b.PutUVarInt(99)
 	case "unx":
